@@ -127,6 +127,12 @@ class KernelTranslator:
                 if arr not in self.arrays:
                     self.arrays.append(arr)
                 return f"(E.rd {lean_str(arr)} {lean_int(dy)} {lean_int(dx)})"
+            if isinstance(n.value, ast.Name) and isinstance(n.slice, ast.Name) and self.xvar is not None \
+                    and n.slice.id == self.xvar and n.value.id in self.elementwise:
+                arr = n.value.id
+                if arr not in self.arrays:
+                    self.arrays.append(arr)
+                return f"(E.rd {lean_str(arr)} 0 0)"
             raise Untranslatable(f"subscript {ast.unparse(n)}")
         if isinstance(n, ast.UnaryOp):
             if isinstance(n.op, ast.USub):
@@ -423,6 +429,48 @@ class KernelTranslator:
         raise Untranslatable(f"no `{target} = where(...)` found")
 
 
+    def target_test_kernel(self):
+        """proximity's target test: the `if n_values == 0: ... else: for i ...: if line[p] == values[i]` block
+        -> a per-cell kernel storing 1 (target) or 0"""
+        loop = next((n for n in ast.walk(self.func) if isinstance(n, ast.For) and isinstance(n.target, ast.Name)), None)
+        if loop is None:
+            raise Untranslatable("pixel loop not found")
+        self.yvar, self.xvar = None, loop.target.id
+        test = next((st for st in loop.body if isinstance(st, ast.If) and isinstance(st.test, ast.Compare)
+                     and isinstance(st.test.left, ast.Name) and st.test.left.id == "n_values"), None)
+        if test is None or not (isinstance(test.test.ops[0], ast.Eq) and isinstance(test.test.comparators[0], ast.Constant)
+                                and test.test.comparators[0].value == 0):
+            raise Untranslatable("`if n_values == 0` not found")
+        self.elementwise = {"source_line"}
+
+        def sets_target(stmts):
+            return len(stmts) == 1 and isinstance(stmts[0], ast.Assign) and isinstance(stmts[0].targets[0], ast.Name) \
+                and stmts[0].targets[0].id == "is_target" and isinstance(stmts[0].value, ast.Constant) \
+                and stmts[0].value.value is True
+        if not (len(test.body) == 1 and isinstance(test.body[0], ast.If) and not test.body[0].orelse
+                and sets_target(test.body[0].body)):
+            raise Untranslatable("default target test shape")
+        default = self.cond(test.body[0].test)
+        if not (len(test.orelse) == 1 and isinstance(test.orelse[0], ast.For)):
+            raise Untranslatable("explicit target test shape")
+        inner = test.orelse[0]
+        if not (len(inner.body) == 1 and isinstance(inner.body[0], ast.If) and sets_target(inner.body[0].body)
+                and isinstance(inner.body[0].test, ast.Compare) and isinstance(inner.body[0].test.ops[0], ast.Eq)):
+            raise Untranslatable("explicit target comparison shape")
+        cmp_ = inner.body[0].test
+        sides = [cmp_.left, cmp_.comparators[0]]
+        vec = next((x for x in sides if isinstance(x, ast.Subscript) and isinstance(x.value, ast.Name)
+                    and x.value.id == "values"), None)
+        other = next((x for x in sides if x is not vec), None)
+        if vec is None:
+            raise Untranslatable("explicit target comparison is not against values[i]")
+        explicit = f"(C.anyEq \"values\" {self.expr(other)})"
+        body = (f"(S.ite (C.cmp .eq (E.var \"n_values\") (E.lit 0 1))\n (S.ite {default} (S.store (E.lit 1 1)) (S.store (E.lit 0 1)))\n"
+                f" (S.ite {explicit} (S.store (E.lit 1 1)) (S.store (E.lit 0 1))))")
+        return dict(arrays=self.arrays, scalars=["n_values"], vectors=["values"], fill="nan", top=0, bottom=0,
+                    left=0, right=0, pre="S.skip", guard="C.tt", body=body)
+
+
 def find_func(mod, name):
     for st in mod.body:
         if isinstance(st, ast.FunctionDef) and st.name == name:
@@ -493,6 +541,7 @@ KERNELS = [
     ("calc_direction", "xrspatial/proximity.py", "_calc_direction", "scalar"),
     ("true_color_alpha_numpy", "xrspatial/multispectral.py", "_true_color_numpy", ("where", "a", ["r"])),
     ("true_color_alpha_dask", "xrspatial/multispectral.py", "_true_color_dask", ("where", "alpha", ["r"])),
+    ("proximity_is_target", "xrspatial/proximity.py", "_process_proximity_line", ("target_test",)),
 ]
 
 
@@ -517,6 +566,8 @@ def translate_kernels(repo):
                 k = tr.grid_kernel()
             elif kind == "scalar":
                 k = tr.scalar_kernel()
+            elif kind[0] == "target_test":
+                k = tr.target_test_kernel()
             else:
                 k = tr.where_kernel(kind[1], kind[2])
             out.append(f"/-- `{qual}` ({rel}:{func.lineno}); casts dropped: {tr.casts} -/")
